@@ -32,7 +32,7 @@
                         (the assembly is left half-updated: `broken`, no further call is modelled).
                         Afterwards spatialGrid._bounds[2] := <<0>> \o tops.
 
-   NUMBERS  exact rationals <<n,d>> (spec/common/Rational.tla).  `lin` = (number density x cross-section area) of a
+   NUMBERS  exact rationals <<n,d>> (spec/common/RationalX.tla: Rational.tla with cancellation before multiplication).  `lin` = (number density x cross-section area) of a
    component relative to its initial value, i.e. mass per unit height: the radial part of a temperature change
    (Component.setTemperature) leaves it unchanged, the axial step divides it by g.  mass(c) = lin(c) * height(block of c)
    (Component.getVolume = area * parent.getHeight()).  Temperatures are levels tau = (Tc - 25)/500; the two solid
@@ -41,15 +41,15 @@
 
    INTERPRETATION OF THE STATEMENT (clauses -> named invariants)
      total height unchanged                       TotalHeightPreserved
-     contiguous, positive, grid bounds            Contiguous, PositiveHeights (*), GridBoundsAreElevations
+     contiguous, positive, grid bounds            Contiguous, PositiveHeights [!], GridBoundsAreElevations
      boundary moves with the target component     BoundaryFollowsTarget
-     target mass conserved below the dummy        TargetMassConserved (*)
-     same fraction in a block => all masses       UniformBlockMassConserved (*)   (read per block, as written)
+     target mass conserved below the dummy        TargetMassConserved [!]
+     same fraction in a block => all masses       UniformBlockMassConserved [!]   (read per block, as written)
      expand ; inverse restores                    RoundTripRestores  (read inside the scope of the preceding clause:
                                                   both changes give all solids of each block one common fraction)
      linked components stay stacked               LinkedStayStacked
      mechanism: density divided by growth         DensityDividedByGrowth, ComponentHeightIsGrowthTimesBlock
-   (*) these three are the statement's literal clauses; TLC REFUTES them on this transcription of the code
+   [!] these three are the statement's literal clauses; TLC REFUTES them on this transcription of the code
    (AxialExpansion_lit*.cfg).  What the code does guarantee instead is stated exactly and checked exhaustively:
      MassAccounting              mass'(c) = mass(c) * h'(b) / (g(c) * h(b))   for every solid component
      AlignedTargetMassConserved  the target's mass is conserved iff its bottom sits on the block bottom
@@ -58,7 +58,7 @@
    Refusals: RefusalsChangeNothing (RuntimeError refusals leave elevations, densities, temperatures and bounds as
    they were; the persisted target names may be filled in).
 *)
-EXTENDS Rational, TLC, Json
+EXTENDS RationalX, TLC, Json
 
 CONSTANTS Designs,        \* set of [types |-> <<block type names, bottom-up, without the dummy>>, hs |-> <<heights>>, hd |-> dummy height]
           Growths,        \* growth fractions L1/L0 (rationals) a prescribed call may use
@@ -124,18 +124,12 @@ BT == [
 PrefFlags == <<"fuel", "control", "poison", "shield", "slug">>        \* TARGET_FLAGS_IN_PREFERRED_ORDER
 
 (* ------------------------------------------- static structure ------------------------------------------- *)
-K         == Len(A.types)
-NBk       == K + 1
-BTy(b)    == BT[A.types[b]]
-CNames(b) == IF b <= K THEN BTy(b).comps ELSE <<>>       \* the dummy holds only coolant, which is outside the model
-NC(b)     == Len(CNames(b))
-CTy(b, i) == CT[CNames(b)[i]]
-Solid(b, i) == CTy(b, i).solid
-SolidsOf(b) == {i \in 1..NC(b) : Solid(b, i)}
-SolidIx   == UNION {{<<b, i>> : i \in SolidsOf(b)} : b \in 1..K}
-H0        == FoldLeft(LAMBDA acc, x : acc + x, A.hd, A.hs)
+\* Everything that follows from the design alone is computed once (Init) and carried in A:
+\*   k, H (total height), ng (temperature points), names/solid/mat per component, lower/upper links, multi
 IMax2(a, b) == IF a >= b THEN a ELSE b
 IMin2(a, b) == IF a <= b THEN a ELSE b
+RECURSIVE SumSeq(_, _)
+SumSeq(s, n) == IF n = 0 THEN 0 ELSE s[n] + SumSeq(s, n - 1)          \* s[1] + ... + s[n]
 
 \* assemblyAxialLinkage.areAxiallyLinked
 LinkedTy(x, y) == /\ x.solid /\ y.solid
@@ -143,11 +137,35 @@ LinkedTy(x, y) == /\ x.solid /\ y.solid
                   /\ x.mult = y.mult
                   /\ x.cls # "Unshaped"
                   /\ IMax2(x.idm, y.idm) < IMin2(x.od, y.od)
-LowerSet(b, i) == IF b = 1 \/ b > K THEN {} ELSE {j \in 1..NC(b - 1) : LinkedTy(CTy(b, i), CTy(b - 1, j))}
-UpperSet(b, i) == IF b >= K THEN {} ELSE {j \in 1..NC(b + 1) : LinkedTy(CTy(b, i), CTy(b + 1, j))}
-MultiLinked == \E x \in SolidIx : Cardinality(LowerSet(x[1], x[2])) > 1 \/ Cardinality(UpperSet(x[1], x[2])) > 1
-Lower(b, i) == IF LowerSet(b, i) = {} THEN 0 ELSE CHOOSE j \in LowerSet(b, i) : TRUE
-Upper(b, i) == IF UpperSet(b, i) = {} THEN 0 ELSE CHOOSE j \in UpperSet(b, i) : TRUE
+DNames(d, b) == IF b >= 1 /\ b <= Len(d.types) THEN BT[d.types[b]].comps ELSE <<>>   \* the dummy holds only coolant (outside the model)
+DLinks(d, b, i, bb) == {j \in 1..Len(DNames(d, bb)) : LinkedTy(CT[DNames(d, b)[i]], CT[DNames(d, bb)[j]])}
+Pick(S) == IF S = {} THEN 0 ELSE CHOOSE j \in S : TRUE
+StaticOf(d) ==
+    LET k == Len(d.types) IN
+    [types |-> d.types, hs |-> d.hs, hd |-> d.hd, k |-> k,
+     H     |-> SumSeq(d.hs, k) + d.hd,
+     ng    |-> (SumSeq(d.hs, k) + d.hd) \div 2,
+     names |-> [b \in 1..(k + 1) |-> DNames(d, b)],
+     solid |-> [b \in 1..(k + 1) |-> [i \in 1..Len(DNames(d, b)) |-> CT[DNames(d, b)[i]].solid]],
+     mat   |-> [b \in 1..(k + 1) |-> [i \in 1..Len(DNames(d, b)) |-> CT[DNames(d, b)[i]].mat]],
+     lower |-> [b \in 1..(k + 1) |-> [i \in 1..Len(DNames(d, b)) |-> Pick(DLinks(d, b, i, b - 1))]],
+     upper |-> [b \in 1..(k + 1) |-> [i \in 1..Len(DNames(d, b)) |-> Pick(DLinks(d, b, i, b + 1))]],
+     multi |-> \E b \in 1..k : \E i \in 1..Len(DNames(d, b)) :
+                  Cardinality(DLinks(d, b, i, b - 1)) > 1 \/ Cardinality(DLinks(d, b, i, b + 1)) > 1]
+
+K         == A.k
+NBk       == K + 1
+BTy(b)    == BT[A.types[b]]
+CNames(b) == A.names[b]
+NC(b)     == Len(A.names[b])
+CTy(b, i) == CT[CNames(b)[i]]
+Solid(b, i) == A.solid[b][i]
+SolidsOf(b) == {i \in 1..NC(b) : Solid(b, i)}
+SolidIx   == UNION {{<<b, i>> : i \in SolidsOf(b)} : b \in 1..K}
+H0        == A.H
+MultiLinked == A.multi
+Lower(b, i) == A.lower[b][i]
+Upper(b, i) == A.upper[b][i]
 
 \* expansionData.ExpansionData.determineTargetComponent / _setTargetComponents / _isFuelLocked
 WithFlag(b, f) == {i \in 1..NC(b) : f \in CTy(b, i).flags}
@@ -172,7 +190,8 @@ TargetOfBlock(b, setFuel) ==
 \* setAssembly: links first (nothing persisted when they fail), then targets block by block (names of the blocks
 \* before the first failing one stay persisted)
 Prep(setFuel) ==
-    IF MultiLinked THEN [names |-> tname, e |-> "RuntimeError"]
+    IF \A b \in 1..K : tname[b] # 0 THEN [names |-> tname, e |-> IF MultiLinked THEN "RuntimeError" ELSE ""]
+    ELSE IF MultiLinked THEN [names |-> tname, e |-> "RuntimeError"]
     ELSE LET r   == [b \in 1..NBk |-> TargetOfBlock(b, setFuel)]
              bad == {b \in 1..NBk : r[b].e # ""}
              f   == IF bad = {} THEN 0 ELSE Min(bad)
@@ -180,35 +199,38 @@ Prep(setFuel) ==
              e |-> IF f = 0 THEN "" ELSE r[f].e]
 
 (* ------------------------------------------- dynamics ---------------------------------------------------- *)
+CanCall == ~broken /\ Len(path) + 1 < MaxLevel       \* MaxLevel bounds the exploration (level 1 = no call yet)
 Snap == [zb |-> zb, zt |-> zt, h |-> h, mesh |-> mesh,
          lin |-> [b \in 1..NBk |-> [i \in 1..NC(b) |-> comp[b][i].lin]],
          T   |-> [b \in 1..NBk |-> [i \in 1..NC(b) |-> comp[b][i].T]]]
-Ones == [b \in 1..NBk |-> [i \in 1..NC(b) |-> ROne]]
 
-\* axiallyExpandAssembly on component records c0 (temperatures already updated by a thermal call), growth g, targets tn
-ExpandCore(c0, g, tn) ==
-    LET Blk(acc, b) ==
-          IF acc.fail # 0 THEN acc
-          ELSE LET zbN == IF b = 1 THEN zb[1] ELSE acc.zt[b - 1]
-                   NewC(i) == IF ~Solid(b, i) THEN c0[b][i]
-                              ELSE LET chh == RMul(g[b][i], h[b])
-                                       lo  == Lower(b, i)
-                                       czb == IF b = 1 THEN RZero
-                                              ELSE IF lo # 0 THEN acc.comp[b - 1][lo].zt
-                                              ELSE acc.zt[b - 1]
-                                   IN [c0[b][i] EXCEPT !.h = chh, !.zb = czb, !.zt = RAdd(czb, chh),
-                                                       !.lin = RDiv(@, g[b][i])]
-                   cN    == [i \in 1..NC(b) |-> NewC(i)]
-                   t     == tn[b]
-                   moved == b <= K /\ t # 0 /\ Solid(b, t)
-                   ztN   == IF moved THEN cN[t].zt ELSE zt[b]
-                   hN    == IF moved \/ b = NBk THEN RSub(ztN, zbN) ELSE h[b]
-               IN [zb   |-> [acc.zb EXCEPT ![b] = zbN],
-                   zt   |-> [acc.zt EXCEPT ![b] = ztN],
-                   h    |-> [acc.h EXCEPT ![b] = hN],
-                   comp |-> [acc.comp EXCEPT ![b] = cN],
-                   fail |-> IF RLt(hN, RZero) THEN b ELSE 0]          \* _checkBlockHeight: `< 0.0`
-    IN FoldLeft(Blk, [zb |-> zb, zt |-> zt, h |-> h, comp |-> c0, fail |-> 0], [b \in 1..NBk |-> b])
+\* axiallyExpandAssembly on component records c0 (temperatures already updated by a thermal call), growth g, targets tn.
+\* ExpandFrom(b, acc, ...) processes blocks b, b+1, ... bottom-up; acc = what the loop has written so far.
+\* (TLCEval: evaluate once -- TLC keeps function constructors lazy)
+RECURSIVE ExpandFrom(_, _, _, _, _)
+ExpandFrom(b, acc, c0, g, tn) ==
+    IF b > NBk \/ acc.fail # 0 THEN acc
+    ELSE LET zbN == IF b = 1 THEN zb[1] ELSE acc.zt[b - 1]       \* "if ib == 0, leave block bottom"
+             NewC(i) == IF ~Solid(b, i) THEN c0[b][i]
+                        ELSE LET chh == RMul(g[b][i], h[b])        \* c.height = growFrac * blockHeight
+                                 lo  == Lower(b, i)
+                                 czb == IF b = 1 THEN RZero
+                                        ELSE IF lo # 0 THEN acc.comp[b - 1][lo].zt
+                                        ELSE acc.zt[b - 1]
+                             IN [c0[b][i] EXCEPT !.h = chh, !.zb = czb, !.zt = RAdd(czb, chh),
+                                                 !.lin = RDiv(@, g[b][i])]
+             cN    == TLCEval([i \in 1..NC(b) |-> NewC(i)])
+             t     == tn[b]
+             moved == b <= K /\ t # 0 /\ Solid(b, t)
+             ztN   == IF moved THEN cN[t].zt ELSE zt[b]
+             hN    == IF moved \/ b = NBk THEN RSub(ztN, zbN) ELSE h[b]
+             nxt   == TLCEval([zb   |-> [acc.zb EXCEPT ![b] = zbN],
+                               zt   |-> [acc.zt EXCEPT ![b] = ztN],
+                               h    |-> [acc.h EXCEPT ![b] = hN],
+                               comp |-> [acc.comp EXCEPT ![b] = cN],
+                               fail |-> IF RLt(hN, RZero) THEN b ELSE 0])     \* _checkBlockHeight: `< 0.0`
+         IN ExpandFrom(b + 1, nxt, c0, g, tn)
+ExpandCore(c0, g, tn) == ExpandFrom(1, [zb |-> zb, zt |-> zt, h |-> h, comp |-> c0, fail |-> 0], c0, g, tn)
 
 Hist(a, g) == /\ act' = a /\ path' = Append(path, a)
               /\ pre' = Snap /\ lg' = g /\ pre2' = pre /\ lg2' = lg
@@ -227,12 +249,14 @@ Refuse(names, cN, e, a) ==
     /\ Hist(a, <<>>)
 
 GJson(g) == [b \in 1..K |-> g[b]]
+\* (TLC re-evaluates LET definitions and operator arguments of an ACTION at every use; binding a value with
+\*  \E x \in {e} evaluates e once)
 Prescribed(g, setFuel, kind) ==
-    LET p == Prep(setFuel)
-        a == [n |-> "Prescribed", g |-> GJson(g), setFuel |-> setFuel, kind |-> kind]
-    IN /\ ~broken
-       /\ IF p.e # "" THEN Refuse(p.names, comp, p.e, a)
-          ELSE Commit(ExpandCore(comp, g, p.names), p.names, a, g)
+    /\ CanCall
+    /\ \E p \in {Prep(setFuel)} :
+       \E a \in {[n |-> "Prescribed", g |-> GJson(g), setFuel |-> setFuel, kind |-> kind]} :
+          IF p.e # "" THEN Refuse(p.names, comp, p.e, a)
+          ELSE \E r \in {ExpandCore(comp, g, p.names)} : Commit(r, p.names, a, g)
 
 \* growth vectors with at most MaxNonUnit changed components
 SparseVectors ==
@@ -242,52 +266,56 @@ SparseVectors ==
 UniformVectors == {[b \in 1..NBk |-> [i \in 1..NC(b) |-> IF b <= K /\ Solid(b, i) THEN u[b] ELSE ROne]] : u \in [1..K -> Growths]}
 
 PrescribedBad(kind, setFuel) ==
-    LET p == Prep(setFuel)
-        a == [n |-> "PrescribedBad", kind |-> kind, setFuel |-> setFuel]
-    IN /\ ~broken /\ Refusals
-       /\ Refuse(p.names, comp, "RuntimeError", a)       \* either from setAssembly or from setExpansionFactors
+    /\ CanCall /\ Refusals
+    /\ \E p \in {Prep(setFuel)} :
+          Refuse(p.names, comp, IF p.e # "" THEN p.e ELSE "RuntimeError",     \* from setAssembly, else from setExpansionFactors
+                 [n |-> "PrescribedBad", kind |-> kind, setFuel |-> setFuel])
 
 \* ---- thermal ----
-TGrid == [j \in 1..(H0 \div 2) |-> <<26 * (j - 1) + 1, 13>>]             \* z_j = 2(j-1) + 1/13  (never on a block boundary: GridClear)
-NG    == Len(TGrid)
+NG    == A.ng
+TPoint(j) == <<26 * (j - 1) + 1, 13>>                       \* z_j = 2(j-1) + 1/13  (never on a block boundary: GridClear)
+TGrid == [j \in 1..NG |-> TPoint(j)]
 StepFields == UNION {{[j \in 1..NG |-> IF j <= p THEN tr[1] ELSE IF j <= q THEN tr[2] ELSE tr[3]] :
                           p \in 0..NG, q \in 0..NG} : tr \in LevelTriples}
-Pts(b) == {j \in 1..NG : RLeq(zb[b], TGrid[j]) /\ RLeq(TGrid[j], zt[b])}
-Tavg(field, b) == RDiv(RSumSet(Pts(b), LAMBDA j : RInt(field[j])), RInt(Cardinality(Pts(b))))
+InBlock(b, j) == RLeq(zb[b], TPoint(j)) /\ RLeq(TPoint(j), zt[b])         \* b.p.zbottom <= z <= b.p.ztop
+Pts(b) == {j \in 1..NG : InBlock(b, j)}
+\* statistics.mean of the field values at those points
+RECURSIVE SumIn(_, _, _)
+SumIn(field, pts, j) == IF j = 0 THEN 0 ELSE (IF j \in pts THEN field[j] ELSE 0) + SumIn(field, pts, j - 1)
+Tavg(field, pts) == RFrac(SumIn(field, pts, NG), Cardinality(pts))
 LF(mat, tau) == IF mat = "A" THEN RAdd(ROne, RDiv(tau, RInt(10)))
                 ELSE IF mat = "B" THEN RAdd(ROne, RDiv(tau, RInt(20)))
                 ELSE ROne
+ThermalG(cT, fromInput) ==
+    [b \in 1..NBk |-> [i \in 1..NC(b) |->
+        IF Solid(b, i) THEN RDiv(LF(A.mat[b][i], cT[b][i].T), LF(A.mat[b][i], IF fromInput THEN RZero ELSE comp[b][i].T))
+        ELSE ROne]]
 Thermal(field, setFuel, fromInput) ==
-    LET p    == Prep(setFuel)
-        a    == [n |-> "Thermal", field |-> field, setFuel |-> setFuel, fromInput |-> fromInput]
-        none == {b \in 1..NBk : Pts(b) = {}}
-        f    == IF none = {} THEN NBk + 1 ELSE Min(none)
-        cT   == [b \in 1..NBk |-> [i \in 1..NC(b) |-> IF b < f THEN [comp[b][i] EXCEPT !.T = Tavg(field, b)] ELSE comp[b][i]]]
-        g    == [b \in 1..NBk |-> [i \in 1..NC(b) |->
-                   IF Solid(b, i) THEN RDiv(LF(CTy(b, i).mat, cT[b][i].T),
-                                            LF(CTy(b, i).mat, IF fromInput THEN RZero ELSE comp[b][i].T))
-                   ELSE ROne]]
-    IN /\ ~broken
-       /\ IF p.e # "" THEN Refuse(p.names, comp, p.e, a)
+    /\ CanCall
+    /\ \E p \in {Prep(setFuel)} :
+       \E a \in {[n |-> "Thermal", field |-> field, setFuel |-> setFuel, fromInput |-> fromInput]} :
+       \E pts \in {[b \in 1..NBk |-> Pts(b)]} :
+       \E f \in {LET none == {b \in 1..NBk : pts[b] = {}} IN IF none = {} THEN NBk + 1 ELSE Min(none)} :
+       \E tav \in {[b \in 1..NBk |-> IF b < f THEN Tavg(field, pts[b]) ELSE RZero]} :
+       \E cT \in {[b \in 1..NBk |-> [i \in 1..NC(b) |-> IF b < f THEN [comp[b][i] EXCEPT !.T = tav[b]] ELSE comp[b][i]]]} :
+          IF p.e # "" THEN Refuse(p.names, comp, p.e, a)
           ELSE IF f <= NBk THEN Refuse(p.names, cT, "ValueError", a)
-          ELSE Commit(ExpandCore(cT, g, p.names), p.names, a, g)
+          ELSE \E g \in {ThermalG(cT, fromInput)} : \E r \in {ExpandCore(cT, g, p.names)} : Commit(r, p.names, a, g)
 ThermalBadLen(setFuel) ==
-    LET p == Prep(setFuel)
-        a == [n |-> "ThermalBadLen", setFuel |-> setFuel]
-    IN /\ ~broken /\ Refusals /\ LevelTriples # {}
-       /\ Refuse(p.names, comp, "RuntimeError", a)
+    /\ CanCall /\ Refusals /\ LevelTriples # {}
+    /\ \E p \in {Prep(setFuel)} :
+          Refuse(p.names, comp, IF p.e # "" THEN p.e ELSE "RuntimeError", [n |-> "ThermalBadLen", setFuel |-> setFuel])
 
 (* ------------------------------------------- behaviours -------------------------------------------------- *)
 InitFor(d, ex) ==
     LET k == Len(d.types)
-        tops == [b \in 1..(k + 1) |-> FoldLeft(LAMBDA acc, x : acc + x, 0, SubSeq(d.hs \o <<d.hd>>, 1, b))]
-    IN /\ A = d
-       /\ zt = [b \in 1..(k + 1) |-> RInt(tops[b])]
-       /\ zb = [b \in 1..(k + 1) |-> IF b = 1 THEN RZero ELSE RInt(tops[b - 1])]
-       /\ h  = [b \in 1..(k + 1) |-> RInt((d.hs \o <<d.hd>>)[b])]
-       /\ comp = [b \in 1..(k + 1) |-> IF b <= k THEN [i \in 1..Len(BT[d.types[b]].comps) |->
-                                                        [h |-> RZero, zb |-> RZero, zt |-> RZero, lin |-> ROne, T |-> RZero]]
-                                       ELSE <<>>]
+        hh == d.hs \o <<d.hd>>
+    IN /\ A = StaticOf(d)
+       /\ zt = [b \in 1..(k + 1) |-> RInt(SumSeq(hh, b))]
+       /\ zb = [b \in 1..(k + 1) |-> RInt(SumSeq(hh, b - 1))]
+       /\ h  = [b \in 1..(k + 1) |-> RInt(hh[b])]
+       /\ comp = [b \in 1..(k + 1) |-> [i \in 1..Len(DNames(d, b)) |->
+                                          [h |-> RZero, zb |-> RZero, zt |-> RZero, lin |-> ROne, T |-> RZero]]]
        /\ tname = ex
        /\ mesh = <<>> /\ placed = FALSE /\ broken = FALSE /\ err = "" /\ act = [n |-> "Init"] /\ path = <<>>
        /\ pre = <<>> /\ lg = <<>> /\ pre2 = <<>> /\ lg2 = <<>>
@@ -296,11 +324,13 @@ ExplChoices(d) ==
     IF ExplicitTargets
     THEN {ex \in [1..(k + 1) -> 0..3] :
             /\ ex[k + 1] = 0
-            /\ \A b \in 1..k : ex[b] <= Len(BT[d.types[b]].comps) /\ (ex[b] # 0 => CT[BT[d.types[b]].comps[ex[b]]].solid)}
+            /\ \A b \in 1..k : ex[b] <= Len(DNames(d, b)) /\ (ex[b] # 0 => CT[DNames(d, b)[ex[b]]].solid)}
     ELSE {[b \in 1..(k + 1) |-> 0]}
 Init == \E d \in Designs : \E ex \in ExplChoices(d) : InitFor(d, ex)
 
-Next == \/ \E g \in SparseVectors, sf \in BOOLEAN : Prescribed(g, sf, "sparse")
+\* setFuel only matters while some block still has no persisted target name
+SetFuelChoices == IF \A b \in 1..K : tname[b] # 0 THEN {TRUE} ELSE BOOLEAN
+Next == \/ \E g \in SparseVectors, sf \in SetFuelChoices : Prescribed(g, sf, "sparse")
         \/ \E g \in UniformVectors : Prescribed(g, TRUE, "uniform")
         \/ \E f \in StepFields, fi \in BOOLEAN : Thermal(f, TRUE, fi)
         \/ \E kind \in {"zero", "negative", "length"} : PrescribedBad(kind, TRUE)
@@ -341,9 +371,9 @@ AlignedTargetMassConserved == Expanded =>
     \A b \in 1..K : LET t == tname[b] IN (comp[b][t].zb = zb[b]) <=> (MassOf(b, t) = PreMassOf(b, t))
 UniformAssemblyMassConserved == (Expanded /\ \A b \in 1..K : UniformBlock(lg, b)) =>
     \A x \in SolidIx : MassOf(x[1], x[2]) = PreMassOf(x[1], x[2])
-Inverse(g1, g2) == \A x \in SolidIx : RMul(g1[x[1]][x[2]], g2[x[1]][x[2]]) = ROne
+InverseGrowth(g1, g2) == \A x \in SolidIx : RMul(g1[x[1]][x[2]], g2[x[1]][x[2]]) = ROne
 RoundTripRestores ==
-    (Expanded /\ lg2 # <<>> /\ Len(path) >= 2 /\ Inverse(lg, lg2) /\ \A b \in 1..K : UniformBlock(lg2, b)) =>
+    (Expanded /\ lg2 # <<>> /\ Len(path) >= 2 /\ InverseGrowth(lg, lg2) /\ \A b \in 1..K : UniformBlock(lg2, b)) =>
         /\ zb = pre2.zb /\ zt = pre2.zt /\ h = pre2.h
         /\ \A x \in SolidIx : comp[x[1]][x[2]].lin = pre2.lin[x[1]][x[2]]
         /\ \A x \in SolidIx : MassOf(x[1], x[2]) = RMul(pre2.lin[x[1]][x[2]], pre2.h[x[1]])
@@ -352,10 +382,10 @@ RefusalsChangeNothing == Refused =>
     /\ zb = pre.zb /\ zt = pre.zt /\ h = pre.h /\ mesh = pre.mesh
     /\ \A b \in 1..K : \A i \in 1..NC(b) : comp[b][i].lin = pre.lin[b][i]
     /\ (err = "RuntimeError" => \A b \in 1..K : \A i \in 1..NC(b) : comp[b][i].T = pre.T[b][i])
-\* modelling guard, not a property of armi: a temperature point never sits within 1/1000 of a moving block boundary
-\* (a float comparison zbottom <= z could otherwise differ from the exact one)
-GridClear == LevelTriples # {} => \A j \in 1..NG : \A b \in 1..K :
-                LET d == RSub(TGrid[j], zt[b]) IN RLt(<<1, 1000>>, d) \/ RLt(d, <<-1, 1000>>)
+\* modelling guard, not a property of armi: a temperature point never coincides with a moving block boundary (a float
+\* comparison zbottom <= z could otherwise differ from the exact one; distinct rationals of this size differ by > 1e-9,
+\* the float error of an elevation is ~1e-15)
+GridClear == LevelTriples # {} => \A j \in 1..NG : \A b \in 1..K : TPoint(j) # zt[b]
 
 \* ---- the literal clauses TLC refutes (see header) ----
 TargetMassConserved == Expanded => \A b \in 1..K : MassOf(b, tname[b]) = PreMassOf(b, tname[b])
@@ -363,7 +393,7 @@ UniformBlockMassConserved == Expanded =>
     \A b \in 1..K : UniformBlock(lg, b) => \A i \in SolidsOf(b) : MassOf(b, i) = PreMassOf(b, i)
 PositiveHeights == ~broken => \A b \in 1..NBk : RLt(RZero, h[b])
 \* unscoped reading of "expand ; inverse restores" (any growth vector) -- not claimed, kept for the record
-RoundTripAny == (Expanded /\ lg2 # <<>> /\ Len(path) >= 2 /\ Inverse(lg, lg2)) => (zb = pre2.zb /\ zt = pre2.zt /\ h = pre2.h)
+RoundTripAny == (Expanded /\ lg2 # <<>> /\ Len(path) >= 2 /\ InverseGrowth(lg, lg2)) => (zb = pre2.zb /\ zt = pre2.zt /\ h = pre2.h)
 
 (* ------------------------------------------- observation ------------------------------------------------- *)
 NameOf(b, i) == IF i = 0 THEN "" ELSE CNames(b)[i]
@@ -377,7 +407,7 @@ Obs == [zb |-> zb, zt |-> zt, h |-> h, mesh |-> mesh, placed |-> placed, broken 
                     [name |-> CNames(b)[i], solid |-> Solid(b, i),
                      h |-> comp[b][i].h, zb |-> comp[b][i].zb, zt |-> comp[b][i].zt,
                      lin |-> comp[b][i].lin, T |-> comp[b][i].T,
-                     ndr |-> RDiv(comp[b][i].lin, Sq(LF(CTy(b, i).mat, comp[b][i].T))),
+                     ndr |-> RDiv(comp[b][i].lin, Sq(LF(A.mat[b][i], comp[b][i].T))),
                      mass |-> RDiv(MassOf(b, i), RInt(A.hs[b])),
                      lower |-> IF MultiLinked THEN "" ELSE NameOf(b - 1, Lower(b, i)),
                      upper |-> IF MultiLinked THEN "" ELSE NameOf(b + 1, Upper(b, i))]]]]
